@@ -84,7 +84,7 @@ pub fn run_points(run: &mut Run, o: &Objects) {
         let k = kind.trim_end_matches(char::is_numeric);
         // the 33-byte case reads 32 bytes and leaves one: the model gets the exact-size prefix
         let req = if bytes.len() > 32 { &bytes[..32] } else { &bytes[..] };
-        run.ctx.case(&format!("fq-repr:{k}"), a.starts_with("ok"), &format!("fq repr {}", hex(req)), &a);
+        run.case(&format!("fq-repr:{k}"), a.starts_with("ok"), &format!("fq repr {}", hex(req)), &a);
         // RawBytes/Processed field format of proving keys: SerdeObject::read_raw (Montgomery limbs)
         let ans = run.guarded("fq-raw", "fq-raw", bytes, 4096, || {
             use midnight_curves::serde::SerdeObject;
@@ -95,7 +95,7 @@ pub fn run_points(run: &mut Run, o: &Objects) {
             Some(Ok(v)) => format!("ok {}", mzkh::fe_hex(&v)),
             Some(Err(e)) => format!("err {}", io_class(&e)),
         };
-        run.ctx.case(&format!("fq-raw:{k}"), a.starts_with("ok"), &format!("fq raw {}", hex(req)), &a);
+        run.case(&format!("fq-raw:{k}"), a.starts_with("ok"), &format!("fq raw {}", hex(req)), &a);
     }
 
     // --- G1 --------------------------------------------------------------------------------
@@ -330,7 +330,7 @@ pub fn run_arch(run: &mut Run, o: &Objects) {
             }
             Some((Err(e), _)) => format!("err {}", io_class(&e)),
         };
-        run.ctx.case(&format!("arch:{kind}"), a.starts_with("ok"), &format!("arch {consts} {}", hex(&bytes)), &a);
+        run.case(&format!("arch:{kind}"), a.starts_with("ok"), &format!("arch {consts} {}", hex(&bytes)), &a);
     }
 
     // column bookkeeping
@@ -397,7 +397,7 @@ pub fn run_arch(run: &mut Run, o: &Objects) {
             None => "panic".into(),
             Some(n) => format!("{n}"),
         };
-        run.ctx.case(
+        run.case(
             "archcols",
             mask != 0,
             &format!("archcols {consts} {} {nr}", arch_bits(&w)),
@@ -502,7 +502,7 @@ fn mvk_case(run: &mut Run, o: &Objects, ks: &KeySet, is_a: bool, fi: usize, byte
             )
         }
     };
-    run.ctx.case(&format!("mvk-{fs}:{kind}"), ans.starts_with("ok") || !ans.ends_with("eof"), &op, &ans);
+    run.case(&format!("mvk-{fs}:{kind}"), ans.starts_with("ok") || !ans.ends_with("eof"), &op, &ans);
 }
 
 /// MidnightVK: every truncation, all 256 values of every header/length byte, flips, splices,
